@@ -294,7 +294,25 @@ pub struct InsModel {
     pub default: Option<u32>,
 }
 
-/// number of entries in the select list of a SELECT lineage log
+/// number of entries in the select list of a real SELECT, as the tree under test holds it
+/// (measured through the public `exprs_mut_for_each`; what `column()` / `exprs()` / tuples mean
+/// for that list is SELECT's business, not the INSERT contract's)
+pub fn measured_width(q: &sea_query::SelectStatement) -> usize {
+    let mut n = 0usize;
+    let mut c = q.clone();
+    c.exprs_mut_for_each(|_| n += 1);
+    n
+}
+
+pub fn measured_width_of_log(log: &Log) -> usize {
+    match crate::stmt::replay(log) {
+        Stmt::Select(q) => measured_width(&q),
+        _ => 0,
+    }
+}
+
+/// number of entries in the select list of a SELECT lineage log, by counting operations
+/// (used for workload generation only)
 pub fn select_width(log: &Log) -> usize {
     let mut n = 0;
     for op in &log.ops {
@@ -360,7 +378,7 @@ impl InsModel {
         match &self.source {
             InsSrc::None => false,
             InsSrc::Rows(rows) => rows.iter().any(|r| r.len() != self.cols.len()),
-            InsSrc::Select(l) => select_width(l) != self.cols.len(),
+            InsSrc::Select(l) => measured_width_of_log(l) != self.cols.len(),
         }
     }
 }
